@@ -934,6 +934,22 @@ class Engine:
             arr = z3.Store(arr, i, to_z3(x, s))
         return VList(s, arr, z3.IntVal(len(items)))
 
+    def expr_Dict(self, node, st):
+        items = []
+        for k, v in zip(node.keys, node.values):
+            if k is None:
+                raise Unsupported("dict unpacking")
+            items.append((self.eval(k, st), self.eval(v, st)))
+        return VConstDict(items)
+
+    def char_of(self, v):
+        """code point of a one-character constant string (strings iterate as code points)"""
+        if isinstance(v, VList) and v.is_str:
+            n = z3.simplify(v.len)
+            if z3.is_int_value(n) and n.as_long() == 1:
+                return z3.simplify(v.arr[0])
+        return None
+
     def expr_IfExp(self, node, st):
         c = as_bool(self.eval(node.test, st))
         a = self.guarded(st, c, lambda: self.eval(node.body, st))
@@ -1200,6 +1216,10 @@ class Engine:
             k = z3.Const(fresh_name("k"), a.key.z3sort())
             return z3.ForAll([k], a.dom[k] == b.dom[k])
         if isinstance(a, VTuple) or isinstance(b, VTuple) or isinstance(a, VList) or isinstance(b, VList):
+            lst, other = (a, b) if isinstance(a, VList) else (b, a)
+            ch = self.char_of(lst) if isinstance(lst, VList) else None
+            if ch is not None and is_z3int(other):
+                return to_z3(other) == ch      # a character obtained by iterating a string vs. a one-character literal
             return z3.BoolVal(False) if (is_numlike(a) or is_numlike(b)) else self._uns("equality %r %r" % (a, b))
         az, bz = to_z3(a), to_z3(b)
         if az.sort() != bz.sort():
@@ -1258,6 +1278,21 @@ class Engine:
             kz = to_z3(key, base.key)
             self.oblige(st, "noexc", base.dom[kz], "KeyError")
             return from_z3(base.map[kz], base.val)
+        if isinstance(base, VConstDict):
+            kz = key if not isinstance(key, VList) else self.char_of(key)
+            if kz is None:
+                raise Unsupported("dict literal lookup with a non-character key")
+            conds = []
+            for k, v in base.items:
+                kk = self.char_of(k) if isinstance(k, VList) else to_z3(k)
+                if kk is None:
+                    raise Unsupported("dict literal with multi-character string keys")
+                conds.append((to_z3(kz) == kk, v))
+            self.oblige(st, "noexc", z3.Or(*[c for c, _ in conds]) if conds else z3.BoolVal(False), "KeyError-literal")
+            res = conds[-1][1]
+            for c, v in reversed(conds[:-1]):
+                res = self.ite(c, v, res)
+            return res
         if isinstance(base, VModel):
             return base.sym_getitem(self, st, key)
         raise Unsupported("subscript on %r" % (base,))
@@ -1401,6 +1436,10 @@ class Engine:
         post.old = pre
         post.ghost = st.ghost
         ret = cc.returns.fresh("ret_" + cc.qualname.split(".")[-1]) if cc.returns is not None else NONE
+        if cc.extra.get("result_is") is not None:
+            # the callee is verified to return a value equal (on its index range) to this spec term; list elements outside
+            # [0, len) are unobservable (every read carries an index obligation), so the spec term itself may stand for the result
+            ret = cc.extra["result_is"](self, post, [call_st.env[n] for n in names])
         if isinstance(ret, VRef):
             st.assume(z3.And(ret.ref >= 0, ret.ref < self.alloc_bound(st, ret.cls)))
         if isinstance(ret, VList):
